@@ -302,10 +302,20 @@ class ReadInterp(Interp):
 
     def e_If(self, fr, e):
         c = unblock(e["cond"])
-        # `if X > 0 { .. } else { .. }` / `X != 0`: the else branch knows X == 0
+        # `if X > 0 { .. } else { .. }` / `X != 0` / `!buf.is_empty()`: the else branch knows X == 0
+        xs = None
         if c.get("k") == "Binary" and c["op"] in ("Gt", "Ne") and lit_value(c["r"]) == 0:
+            xs = c["l"]
+        elif c.get("k") == "Unary" and c.get("op") == "Not" and unblock(c["e"]).get("k") == "Call" and \
+                unblock(c["e"])["fn"].get("name") == "is_empty" and len(unblock(c["e"])["args"]) == 1:
+            xs = {"__len_of": unblock(c["e"])["args"][0]}
+        if xs is not None:
             try:
-                x = as_poly(self.eval(fr, c["l"]), "cond")
+                if "__len_of" in xs:
+                    bv = self.eval(fr, xs["__len_of"])
+                    x = bv.n if isinstance(bv, BufVal) else None
+                else:
+                    x = as_poly(self.eval(fr, xs), "cond")
             except Unsupported:
                 x = None
             if x is not None and not x.is_const():
@@ -636,7 +646,14 @@ class ReadInterp(Interp):
                 return PathVal(p)
             vals = [self.eval_quiet(fr, a) for a in args]
             r0 = len(self.reads)
-            v = self.run_fn(res, vals)
+            # const generic arguments of this instantiation (`read_array::<T, 2>`): visible to buf_len in the callee
+            consts = [int(a) for a in (fn.get("args") or []) if isinstance(a, str) and a.isdigit()]
+            stack = getattr(self, "const_args", [])
+            self.const_args = stack + [consts]
+            try:
+                v = self.run_fn(res, vals)
+            finally:
+                self.const_args = stack
             sub = self.reads[r0:]
             del self.reads[r0:]
             self.reads.append(("call", res, sub, _symname(v)))
@@ -682,6 +699,9 @@ class ReadInterp(Interp):
         m = re.fullmatch(r"\[u8; (\d+)\]", inner.get("ty") or "")
         if m:
             return Poly.const(int(m.group(1)))
+        m = re.fullmatch(r"\[u8; ([A-Za-z_]\w*)\]", inner.get("ty") or "")
+        if m and getattr(self, "const_args", None) and len(self.const_args[-1]) == 1:
+            return Poly.const(self.const_args[-1][0])     # `[u8; N]` with N the single const generic of this instantiation
         v = self.eval(fr, inner)
         if isinstance(v, BufVal):
             return v.n
